@@ -299,6 +299,7 @@ func Run(ctx *Ctx, sc *Scn) (evs []trace.Ev, note string) {
 			evs = append(evs, trace.Ev{"ev": "panic", "what": "panic"})
 		}
 	}()
+	evs = append(evs, trace.Ev{"ev": "reset", "what": "reset"})
 	pr, pw, err := os.Pipe()
 	if err != nil {
 		panic(err)
